@@ -24,6 +24,17 @@ property predicate is judged there, M = also compared with the Coq model):
                                        (read-only: exact or ValueError, refusals counted in evidence) (PM)
   caller objects reused across calls   reuse: same buffers / same array objects overwritten in place between calls (same
                                        length, first, last element), reused out= array, reused SignatureArray (P)
+  containers MUTATED between calls     mutate: ONE mutable reference container (SignatureList, plain list, AnnotatedSignatures
+                                       over a SignatureList, SignatureArray written through its member views) kept across a
+                                       SEQUENCE bulk call / mutation / bulk call ...: every container kind x every mutation it
+                                       supports -- setitem (int, negative, member of another dtype), slice assignment (equal
+                                       length, extended step, other length), reverse, swap, sort (list.sort / sl[:] = sorted),
+                                       in-place write into a member array, delitem, delslice, insert, append, extend, +=, pop,
+                                       clear-and-refill, the same array object held twice -- members all of the container's
+                                       dtype (two thirds), later of other dtypes, or mixed; after the mutations
+                                       jaccarddist_array (fresh / kept out=), jaccarddist per member, jaccarddist_matrix
+                                       (chunksize), jaccarddist_pairwise (square / flat) and an alias container built at the
+                                       start from the same array objects: every cell judged against the CURRENT members (P)
   entry points reaching the kernel     pair: jaccarddist_array x 1 reference; bulk: jaccarddist_array (SignatureArray,
                                        slice view with non-zero base, fancy index, non-intp bounds, list/tuple/
                                        SignatureList, HDF5-backed file, out= contiguous/strided/reused, keywords, empty),
@@ -46,7 +57,7 @@ property predicate is judged there, M = also compared with the Coq model):
                                        the property); options, file names: the two observed functions have none.
 Layouts, bulk containers, reuse sequences and gen-large sizes are outside the list-based Coq model: the value
 semantics is the same, so form cases are still compared with the model (ops 205/206), gen-large with op 204
-(ratio_f32); bulk and reuse are judged by the property predicate alone; mixed by the predicate on every cell, and
+(ratio_f32); bulk, reuse and mutate are judged by the property predicate alone; mixed by the predicate on every cell, and
 its (query, element) pairs are also compared with the model (op 205)."""
 import itertools
 
@@ -59,7 +70,13 @@ RULE = ('pairs of sorted duplicate-free integer arrays x dtype pairs x both argu
         'extension / same-object call forms of jaccarddist and jaccard), gen-large (seeded sets of 2*10^4..10^6 '
         'elements), bulk (a collection of signatures through jaccarddist_array / _matrix / _pairwise in every '
         'container, out= form and thread count, every cell judged), reuse (buffers overwritten in place between '
-        'calls), mixed (collections whose ELEMENTS have different integer types -- narrow first, wide first, same width '
+        'calls), mutate (one mutable reference container -- SignatureList, plain list, AnnotatedSignatures over a '
+        'SignatureList, SignatureArray member views -- kept across a sequence of bulk calls interleaved with every '
+        'mutation it supports: item / negative-index / slice assignment of equal and other length, reverse, swap, sort, '
+        'in-place write into a member array, member of another dtype, delete, insert, append, extend, +=, pop, '
+        'clear-and-refill, one array object held twice; every cell of every later jaccarddist_array / _matrix / '
+        '_pairwise call and of an alias container sharing the array objects is judged against the members held AT THAT '
+        'CALL; non-trivial: at least one mutation and some pair of sets of the case is non-trivial), mixed (collections whose ELEMENTS have different integer types -- narrow first, wide first, same width '
         'signed / unsigned, alternating, all six, first element empty, empty elements of another type, each element at '
         'the top of its own range -- as references, queries and pairwise collections in list / tuple / SignatureList '
         'form, every cell judged); non-trivial there by the same rule (bulk / reuse: some pair of the case is '
@@ -69,7 +86,11 @@ TRUSTED = ['tools/pyx2v.py (Cython subset -> Gallina; C integer / binary32 seman
            'harness oracle round_ratio_f32 (exact integer implementation of round-to-nearest-even)',
            'NumPy set operations (intersect1d / union1d on uint64 values) as the counting oracle of the gen-large stream',
            'Python set arithmetic on the generated value lists as the counting oracle of every cell of the bulk, mixed and '
-           'reuse streams (the expected pair of a cell is derived from the harness\'s own index lists)']
+           'reuse streams (the expected pair of a cell is derived from the harness\'s own index lists)',
+           'mutate stream: the current members of a container are the harness\'s own replay of the step list on a Python '
+           'list of array objects (_mut_model: built-in list semantics for item / slice assignment, del, insert, append, '
+           'extend, pop, reverse, stable sort by length; an in-place write changes the object wherever it is held); a '
+           'mutation the container itself refuses ends the case unjudged (counted as refused:container-mutation-*)']
 ASSUMPTIONS = ['inputs are sorted and duplicate-free (outside that the property says nothing)',
                'C comparison of unsigned values of different widths is value-preserving',
                'array lengths < 2^62 (intptr_t arithmetic does not overflow)']
@@ -837,6 +858,214 @@ def k_reuse(ctx, cases):
 		omp_set_num_threads(before)
 
 
+CONTAINERS = ['SignatureList', 'list', 'AnnotatedSignatures', 'SignatureArray']
+# every mutation a mutable reference container supports (a SignatureArray has a fixed layout: only 'write')
+MUT_OPS = ['setitem', 'setitem-neg', 'setitem-other-dtype', 'setslice-equal', 'setslice-step', 'setslice-other', 'reverse',
+           'swap', 'sort', 'write', 'delitem', 'delslice', 'insert', 'append', 'extend', 'iadd', 'pop', 'pop-last',
+           'clear-refill', 'dup']
+KEEP_LENGTH = {'setitem', 'setitem-neg', 'setitem-other-dtype', 'setslice-equal', 'setslice-step', 'reverse', 'swap', 'sort',
+               'write'}
+
+
+class _Obj:
+	"""one signature ARRAY OBJECT of a mutate case: a container holds references to such objects (possibly the same
+	one twice, possibly shared with a second container), an in-place write changes the object itself"""
+	__slots__ = ('dt', 'vals', 'arr')
+
+	def __init__(self, sig, build=True):
+		self.dt, self.vals = sig[0], list(sig[1])
+		self.arr = _arr(self.vals, self.dt) if build else None
+
+
+def _mut_model(state, st, mk):
+	"""what the step does to a Python list of references (the harness's own reading of list / MutableSequence
+	semantics); mk turns a [dtype, values] description into a new object"""
+	op = st['op']
+	if op in ('setitem', 'setitem-neg', 'setitem-other-dtype'):
+		state[st['i']] = mk(st['sig'])
+	elif op in ('setslice-equal', 'setslice-step', 'setslice-other'):
+		state[st['lo']:st['hi']:st['step']] = [mk(s) for s in st['sigs']]
+	elif op == 'reverse':
+		state.reverse()
+	elif op == 'swap':
+		state[st['i']], state[st['j']] = state[st['j']], state[st['i']]
+	elif op == 'sort':
+		state.sort(key=lambda o: len(o.vals), reverse=st['rev'])
+	elif op == 'write':
+		state[st['i']].vals = list(st['vals'])
+	elif op == 'delitem':
+		del state[st['i']]
+	elif op == 'delslice':
+		del state[st['lo']:st['hi']:st['step']]
+	elif op == 'insert':
+		state.insert(st['i'], mk(st['sig']))
+	elif op == 'append':
+		state.append(mk(st['sig']))
+	elif op in ('extend', 'iadd'):
+		state.extend([mk(s) for s in st['sigs']])
+	elif op == 'pop':
+		state.pop(st['i'])
+	elif op == 'pop-last':
+		state.pop()
+	elif op == 'clear-refill':
+		state[:] = [mk(s) for s in st['sigs']]
+	elif op == 'dup':
+		state.append(state[st['i']])
+	else:
+		raise ValueError(op)
+
+
+def _mut_impl(inner, st, state, plain):
+	"""the same step on the implementation's container (state: the harness list BEFORE the step, for 'write' / 'dup').
+	Returns the new array objects in the order _mut_model creates them, so both sides hold the same objects."""
+	op = st['op']
+	new = [_Obj(s) for s in ([st['sig']] if 'sig' in st else st.get('sigs', []))]
+	arrs = [o.arr for o in new]
+	if op in ('setitem', 'setitem-neg', 'setitem-other-dtype'):
+		inner[st['i']] = arrs[0]
+	elif op in ('setslice-equal', 'setslice-step', 'setslice-other'):
+		inner[st['lo']:st['hi']:st['step']] = arrs
+	elif op == 'reverse':
+		inner.reverse()
+	elif op == 'swap':
+		inner[st['i']], inner[st['j']] = inner[st['j']], inner[st['i']]
+	elif op == 'sort':
+		if plain:
+			inner.sort(key=len, reverse=st['rev'])
+		else:
+			inner[:] = sorted(inner, key=len, reverse=st['rev'])      # a MutableSequence has no sort()
+	elif op == 'write':
+		o = state[st['i']]
+		o.arr[...] = _arr(st['vals'], o.dt)          # in place, into the member array object itself
+	elif op == 'delitem':
+		del inner[st['i']]
+	elif op == 'delslice':
+		del inner[st['lo']:st['hi']:st['step']]
+	elif op == 'insert':
+		inner.insert(st['i'], arrs[0])
+	elif op == 'append':
+		inner.append(arrs[0])
+	elif op == 'extend':
+		inner.extend(arrs)
+	elif op == 'iadd':
+		inner += arrs
+	elif op == 'pop':
+		inner.pop(st['i'])
+	elif op == 'pop-last':
+		inner.pop()
+	elif op == 'clear-refill':
+		inner.clear()
+		inner.extend(arrs)
+	elif op == 'dup':
+		inner.append(state[st['i']].arr)
+	else:
+		raise ValueError(op)
+	return new
+
+
+def k_mutate(ctx, cases):
+	"""ONE mutable reference container (plain list, SignatureList, AnnotatedSignatures over a SignatureList, or a
+	SignatureArray whose member views are written in place) kept across a SEQUENCE of bulk calls and mutations; a second
+	container (alias) built at the start from the same array objects is carried along.  Every cell of every call must be
+	the property value of the query and the member the container holds AT THAT CALL.  Property predicate only."""
+	from gambit.metric import jaccarddist, jaccarddist_array, jaccarddist_matrix, jaccarddist_pairwise
+	from gambit.sigs.base import SignatureArray, SignatureList, AnnotatedSignatures
+	from gambit._cython.threads import omp_set_num_threads, omp_get_max_threads
+	before = omp_get_max_threads()
+	omp_set_num_threads(1)
+	nan = np.float32('nan')
+	try:
+		for c in cases:
+			cont = c['cont']
+			state = [_Obj(s) for s in c['init']]
+			queries = [_Obj(s) for s in c['queries']]
+			dl = np.dtype(c['dl']) if c.get('dl') else None
+			arrs = [o.arr for o in state]
+			if cont == 'list':
+				inner = target = list(arrs)
+			elif cont == 'SignatureList':
+				inner = target = SignatureList(arrs, dtype=dl)
+			elif cont == 'AnnotatedSignatures':
+				inner = SignatureList(arrs, dtype=dl)
+				target = AnnotatedSignatures(inner, [f's{i}' for i in range(len(arrs))])
+			elif cont == 'SignatureArray':
+				inner = target = SignatureArray(arrs, dtype=dl)
+				for i, o in enumerate(state):
+					o.arr = target[i]                    # the member views: writes go into the array's own memory
+			else:
+				raise ValueError(cont)
+			# the alias holds the same array objects (resp. the same memory): in-place writes show through it,
+			# structural changes of the main container do not
+			alias = target[0:] if cont == 'SignatureArray' and len(state) else \
+				SignatureList(list(arrs), dtype=dl or (arrs[0].dtype if arrs else np.dtype('u8')))
+			alias_state = list(state)
+			everv = [o.vals for o in queries + state] + [s[1] for st in c['steps'] for s in ([st['sig']] if 'sig' in st else st.get('sigs', []))]
+			nontriv = any(st['op'] != 'check' for st in c['steps']) and \
+				any(0 < len(set(x) & set(y)) < min(len(x), len(y)) for x, y in itertools.combinations(everv, 2))
+			ctx.case(c, nontrivial=nontriv)
+			out = None
+			done = []
+			bad = False
+			for k, st in enumerate(c['steps']):
+				if st['op'] != 'check':
+					try:
+						new = iter(_mut_impl(inner, st, state, cont == 'list'))
+					except Exception as e:
+						# what a container accepts as a mutation is not the property's business
+						ctx.count(f'refused:container-mutation-{st["op"]}-{type(e).__name__}')
+						break
+					_mut_model(state, st, lambda s: next(new))
+					done.append(st['op'])
+					continue
+				qo = queries[st['q'] % len(queries)]
+				q2 = queries[(st['q'] + 1) % len(queries)]
+				n = len(state)
+				if out is None or len(out) != n:
+					out = np.full(n, nan, dtype=np.float32)      # else: the out array of the previous call again
+				row = [(qo, o) for o in state]
+				forms = [('jaccarddist_array(q, container)', lambda: jaccarddist_array(qo.arr, target), row),
+				         ('jaccarddist_array(q, container, out=kept array): out then returned',
+				          lambda: (lambda r: list(out) + list(r))(jaccarddist_array(qo.arr, target, out=out)), row + row),
+				         ('jaccarddist(q, container[i]) for every i', lambda: [jaccarddist(qo.arr, target[i]) for i in range(n)], row),
+				         (f'jaccarddist_matrix([q, q2], container, chunksize={st["cs"]})',
+				          lambda: jaccarddist_matrix([qo.arr, q2.arr], target, chunksize=st['cs']).ravel(),
+				          row + [(q2, o) for o in state]),
+				         (f'jaccarddist_pairwise(container, flat={st["flat"]})',
+				          lambda: jaccarddist_pairwise(target, flat=st['flat']).ravel(),
+				          [(state[i], state[j]) for i in range(n) for j in range(i + 1, n)] if st['flat'] else
+				          [(x, y) for x in state for y in state]),
+				         ('jaccarddist_array(q, alias container built at the start from the same array objects)',
+				          lambda: jaccarddist_array(qo.arr, alias), [(qo, o) for o in alias_state]),
+				         ('jaccarddist_array(q, container) [again]', lambda: jaccarddist_array(qo.arr, target), row)]
+				where = (f'step {k} ({cont}' + (f' of dtype {c["dl"]}' if c.get('dl') else '') + f', after {done or "no mutation"}; '
+				         f'current members {[(o.dt, o.vals) for o in state]}, query {qo.vals} ({qo.dt}))')
+				for name, fn, pairs in forms:
+					try:
+						cells = list(fn())
+					except Exception as e:
+						ctx.violation('mutate', c, f'{where}: {name} raised {type(e).__name__}: {e}', step=k, impl=type(e).__name__)
+						bad = True
+						break
+					if len(cells) != len(pairs):
+						ctx.violation('mutate', c, f'{where}: {name} returned {len(cells)} cells for {len(pairs)} pairs',
+						              step=k, impl=len(cells), spec=len(pairs))
+						bad = True
+						break
+					msgs = [(i, _dist_problem(v, *_su(pairs[i][0].vals, pairs[i][1].vals))) for i, v in enumerate(cells)]
+					msgs = [(i, m) for i, m in msgs if m]
+					if msgs:
+						i, m = msgs[0]
+						x, y = pairs[i]
+						ctx.violation('mutate', c, f'{where}: {name}: cell {i} for the pair ({x.vals} ({x.dt}), {y.vals} ({y.dt})) = {m}',
+						              step=k, impl=[float(v) for v in cells][:200], spec=list(_su(x.vals, y.vals)))
+						bad = True
+						break
+				if bad:
+					break
+	finally:
+		omp_set_num_threads(before)
+
+
 def _timed(kind, fn):
 	"""wall seconds spent per kind go into the evidence (coverage.seconds_by_kind): the cost of each stream is measured"""
 	import time
@@ -853,7 +1082,7 @@ def _timed(kind, fn):
 
 
 KINDS = {k: _timed(k, f) for k, f in dict(pair=k_pair, dtype=k_dtype, big=k_big, form=k_form, gen=k_gen, bulk=k_bulk,
-                                           reuse=k_reuse, mixed=k_mixed).items()}
+                                           reuse=k_reuse, mixed=k_mixed, mutate=k_mutate).items()}
 SHRINK = False
 
 
@@ -980,6 +1209,108 @@ def _reuse_steps(rng, da, db):
 				B = interior(B) if how in ('b', 'both') else B
 			steps.append([list(A), list(B)])
 	return steps
+
+
+def _mutate_case(rng, cont, first_op, mode):
+	"""a sequence on one container: bulk call, mutation(s), bulk call, ...  mode 'uniform': every member ever held has
+	the container's dtype (what lets an implementation keep a concatenated / converted copy); 'other': uniform at
+	first, later members of other dtypes; 'mixed': any dtypes.  The first mutation is first_op (when the container
+	supports it at that point), the others are drawn with the length-preserving ones favoured."""
+	d0 = rng.choice(DTYPES)
+	dq = [rng.choice(DTYPES) for _ in range(rng.randint(1, 3))]
+	used = [d0] + dq + ([] if mode == 'uniform' and first_op != 'setitem-other-dtype' else DTYPES)
+	m = min(_dmax(d) for d in used)
+	pool = _universe(rng, m, rng.choice(['hug-top', 'hug-top', 'hug-bottom', 'pow2', 'spread']), rng.choice([6, 10, 16]))
+
+	def sig(dt, nonempty=False):
+		x = set(rng.sample(pool, rng.randint(1 if nonempty else 0, min(len(pool), 8))))
+		if rng.random() < 0.4:
+			x |= _beyond(rng, m, _dmax(dt), pool)
+		x = sorted(v for v in x if v <= _dmax(dt))          # in-domain: inside the dtype of the array that holds it
+		return [dt, x or ([min(pool[0], _dmax(dt))] if nonempty else [])]
+
+	def member(later=True):
+		if mode == 'mixed' or (mode == 'other' and later and rng.random() < 0.4):
+			return sig(rng.choice(DTYPES))
+		return sig(d0, nonempty=cont == 'SignatureArray')
+	n0 = rng.choice([1, 2, 3, 3, 4, 5, 6]) if first_op or cont == 'SignatureArray' else rng.choice([0, 1, 2, 3, 4, 6])
+	init = [member(False) for _ in range(n0)]
+	state = [_Obj(s, build=False) for s in init]
+	queries = [sig(d) for d in dq]
+	if rng.random() < 0.3 and state and all(v <= _dmax(dq[0]) for v in state[0].vals):
+		queries[0] = [dq[0], list(state[0].vals)]
+
+	def check():
+		return dict(op='check', q=rng.randrange(3), cs=rng.choice([None, 1, 2, 3]), flat=rng.random() < 0.5)
+	steps = [check()] if rng.random() < 0.9 else []
+	nops = rng.randint(1, 5)
+	t = 0
+	while t < nops:
+		n = len(state)
+		op = first_op if t == 0 and first_op else rng.choice(sorted(KEEP_LENGTH)) if rng.random() < 0.55 else rng.choice(MUT_OPS)
+		if cont == 'SignatureArray':
+			op = 'write'
+		t += 1
+		if op == 'setitem-other-dtype' and mode == 'uniform' and op != first_op:
+			continue
+		st = dict(op=op)
+		if op in ('setitem', 'setitem-neg', 'setitem-other-dtype', 'delitem', 'pop', 'dup', 'write') and n == 0 or \
+		   op == 'swap' and n < 2 or op == 'pop-last' and n == 0:
+			continue
+		if op in ('setitem', 'setitem-neg'):
+			st.update(i=rng.randrange(n) - (n if op == 'setitem-neg' else 0), sig=member())
+		elif op == 'setitem-other-dtype':
+			i = rng.randrange(n)
+			st.update(i=i, sig=sig(rng.choice([d for d in DTYPES if d != state[i].dt])))
+		elif op in ('setslice-equal', 'setslice-other'):
+			lo = rng.randint(0, n)
+			hi = rng.randint(lo, n)
+			k = hi - lo if op == 'setslice-equal' else rng.choice([x for x in range(0, hi - lo + 3) if x != hi - lo])
+			st.update(lo=lo if rng.random() < 0.7 else lo - n if lo < n else lo, hi=hi if rng.random() < 0.7 or hi == 0 else hi - n if hi < n else None, step=None,
+			          sigs=[member() for _ in range(k)])
+		elif op == 'setslice-step':
+			step = rng.choice([2, -1, -2, 3])
+			lo, hi = (None, None) if rng.random() < 0.6 else (rng.randrange(n + 1), None)
+			st.update(lo=lo, hi=hi, step=step, sigs=[member() for _ in range(len(range(n)[lo:hi:step]))])
+		elif op == 'swap':
+			i, j = rng.sample(range(n), 2)
+			st.update(i=i, j=j - n if rng.random() < 0.3 else j)
+		elif op == 'sort':
+			st.update(rev=rng.random() < 0.5)
+		elif op == 'write':
+			cand = [i for i in range(n) if state[i].vals]
+			if not cand:
+				continue
+			i = rng.choice(cand)
+			o = state[i]
+			U = sorted({v for v in pool if v <= _dmax(o.dt)} | set(o.vals) | {v + 1 for v in o.vals if v + 1 <= _dmax(o.dt)})
+			vals = sorted(rng.sample(U, len(o.vals)))
+			st.update(i=i if rng.random() < 0.7 else i - n, vals=vals)
+		elif op in ('delitem', 'pop'):
+			st.update(i=rng.randrange(n) - (n if rng.random() < 0.3 else 0))
+		elif op == 'delslice':
+			lo = rng.randint(0, n)
+			st.update(lo=lo, hi=rng.choice([None, rng.randint(lo, n)]), step=rng.choice([None, None, 2]))
+		elif op == 'insert':
+			st.update(i=rng.randint(-n - 1, n + 1), sig=member())
+		elif op == 'append':
+			st.update(sig=member())
+		elif op in ('extend', 'iadd'):
+			st.update(sigs=[member() for _ in range(rng.randint(0, 3))])
+		elif op == 'clear-refill':
+			st.update(sigs=[member() for _ in range(rng.choice([n, n, rng.randint(0, 5)]))])
+		elif op == 'dup':
+			st.update(i=rng.randrange(n))
+		_mut_model(state, st, lambda s: _Obj(s, build=False))
+		steps.append(st)
+		if rng.random() < 0.75:
+			steps.append(check())
+	if not steps or steps[-1]['op'] != 'check':
+		steps.append(check())
+	# the declared dtype of the container: mostly stated, sometimes left to the constructor (taken from the first member)
+	dl = d0 if cont == 'SignatureArray' or n0 == 0 or mode != 'mixed' and rng.random() < 0.7 else init[0][0] if mode == 'mixed' and rng.random() < 0.5 else None
+	return dict(cont=cont, dl=dl, mode=mode, init=init, queries=queries, steps=steps)
+
 
 MIXED_PATTERNS = ['narrow-first', 'wide-first', 'same-width', 'alternating', 'all-six', 'odd-one-last', 'first-empty',
                   'empty-other-dtype', 'random']
@@ -1154,6 +1485,14 @@ def generate(ctx):
 		da, db = combos[i % 36] if i < 36 else (rng.choice(DTYPES), rng.choice(DTYPES))
 		ctx.count('stream:reuse')
 		yield 'reuse', dict(da=da, db=db, steps=_reuse_steps(rng, da, db))
+	# one mutable reference container kept across bulk calls and mutations: every container kind x every mutation it
+	# supports as the first one (then random ones), two thirds with members of the container's own dtype throughout
+	combos_m = [(cont, op) for op in MUT_OPS for cont in CONTAINERS if cont != 'SignatureArray' or op == 'write']
+	for i in range(ctx.pick(330, 3000)):
+		cont, op = combos_m[i % len(combos_m)] if i < 3 * len(combos_m) else (rng.choice(CONTAINERS), None)
+		mode = 'uniform' if cont == 'SignatureArray' else ['uniform', 'other', 'uniform', 'mixed', 'uniform', 'uniform'][(i // len(combos_m)) % 6 if op else rng.randrange(6)]
+		ctx.count('stream:mutated-container-' + cont)
+		yield 'mutate', _mutate_case(rng, cont, op, mode)
 	# collections through the bulk entry points (all 36 reference x query dtype pairs)
 	nb = ctx.pick(112, 600)
 	for i in range(nb):
